@@ -39,6 +39,21 @@ def tol(r):
     return REL_TOL * FOUR_PI * r * r
 
 
+EPS64 = 2.0 ** -52
+TINY_K = 16.0
+
+
+def case_tol(case, r):
+    """Tolerance of the area laws for one polygon.  Ordinary polygons: 1e-9 * 4 pi r^2.  Tiny polygons (1e-5..1e-3 rad across) are
+    checked much more tightly, against the rounding error the angle sum itself can have: each of the 2n azimuths is
+    arctan2(y, x) with |(y, x)| ~ d (distance pivot-neighbour) where x is a difference of O(1) terms, i.e. carries an absolute
+    error of a few ulp(1); the azimuth error is therefore <= c * eps / d and the angle sum is off by at most 2 n c eps / d_min.
+    per azimuth the error of x is <= 4 eps (three rounded products and a subtraction), so 2 n c = 8 n; TINY_K = 16 doubles that (measured worst case on /repo over 400 tiny polygons: 0.15)."""
+    if case.get("tiny"):
+        return (TINY_K * case["n"] * EPS64 / case["dmin"] + 1e-13) * r * r
+    return tol(r)
+
+
 # ------------------------------------------------------------------------------------------------ area cases
 def vertex_angle(a, p, b):
     """clockwise (seen from outside) angle at p from the direction of b to the direction of a, in [0, 2 pi):
@@ -49,10 +64,15 @@ def vertex_angle(a, p, b):
     return ang % G.TWO_PI
 
 
-def make_area_case(rng, kind, n, placement, radius):
-    P = G.gen_polygon(rng, kind, n, placement)
+def make_area_case(rng, kind, n, placement, radius, ang_radius=None):
+    P = G.gen_polygon(rng, kind, n, placement, ang_radius)
     case = {"type": "area", "kind": P["kind"], "n": n, "placement": placement, "v": P["v"], "r": radius,
             "kernel": list(P["kernel"])}
+    if ang_radius is not None and ang_radius < 1e-3:
+        pts = G.pts_of(P["v"])
+        case["tiny"] = True
+        case["dmin"] = G.min_separation(pts)
+        case["across"] = 2 * ang_radius
     case["shifts"] = sorted(set(rng.randrange(1, n) for _ in range(2)))
     case["rots"] = [[list(row) for row in G.random_rotation(rng)] for _ in range(2)]
     diags = G.interior_diagonals(P["planar"])
@@ -85,7 +105,8 @@ def area_laws(case, outs):
         by.setdefault(e["tag"], []).append(o)
     fails = []
     r = case["r"]
-    cls = "%s.%s" % (case["kind"], case["placement"])
+    cls = "%s%s.%s" % ("tiny_" if case.get("tiny") else "", case["kind"], case["placement"])
+    ang_tol = ANGLE_TOL + (64 * EPS64 / case["dmin"] if case.get("tiny") else 0.0)
     for e, o in zip(ent, outs):
         if "error" in o or not math.isfinite(o.get("area", math.nan)):
             fails.append(("C17.area.crash." + cls, "SphPolygon(%d vertices, %s).area() on %s gives %s" % (
@@ -96,7 +117,7 @@ def area_laws(case, outs):
     a1 = base["area"]
     pts = G.pts_of(case["v"])
     ref = G.fan_area(tuple(case["kernel"]), pts)
-    if abs(a1 - ref) > tol(1.0):
+    if abs(a1 - ref) > case_tol(case, 1.0):
         fails.append(("C17.area.value." + cls, "area %.15g but the enclosed area (fan of triangles around an interior point) is %.15g "
                       "for the clockwise %s polygon %s" % (a1, ref, case["kind"], case["v"])))
     # the azimuth oracle: each difference new_lons_a - new_lons_b, normalised, is the interior angle
@@ -115,32 +136,32 @@ def area_laws(case, outs):
                     w = (d, i, got)
             worst.append(w)
         d, i, got = min(worst)
-        if not d <= ANGLE_TOL:
+        if not d <= ang_tol:
             fails.append(("C17.area.vertex_angle." + cls, "arctan2 difference at vertex %d is %.12g, the interior angle is %.12g (%s)"
                           % ((i + 1) % n, got, want[i], case["v"])))
     ar = by["radius"][0]["area"] if r != 1.0 else a1
-    if abs(ar - a1 * r * r) > tol(r):
+    if abs(ar - a1 * r * r) > case_tol(case, r):
         fails.append(("C17.area.radius", "area with radius %r is %.15g, with radius 1 it is %.15g (x r^2 = %.15g)" % (r, ar, a1, a1 * r * r)))
     for tag, os_ in by.items():
         if tag.startswith("shift"):
-            if abs(os_[0]["area"] - ar) > tol(r):
+            if abs(os_[0]["area"] - ar) > case_tol(case, r):
                 fails.append(("C17.area.cyclic", "relabelling the vertices cyclically by %s changes the area from %.15g to %.15g (%s)"
                               % (tag[5:], ar, os_[0]["area"], case["v"])))
     for o in by.get("rot", []):
-        if abs(o["area"] - ar) > tol(r):
+        if abs(o["area"] - ar) > case_tol(case, r):
             fails.append(("C17.area.rotation." + cls, "rotating the sphere changes the area from %.15g to %.15g (%s)" % (ar, o["area"], case["v"])))
     if case["diag"]:
         p1, p2 = by["part1"][0]["area"], by["part2"][0]["area"]
-        if abs(p1 + p2 - ar) > tol(r):
+        if abs(p1 + p2 - ar) > case_tol(case, r):
             fails.append(("C17.area.additive." + case["kind"], "split along the interior diagonal %s: %.15g + %.15g != %.15g (%s)"
                           % (case["diag"], p1, p2, ar, case["v"])))
     for o in ([base] + (by["radius"] if r != 1.0 else [])):
         rr = 1.0 if o is base else r
         for nm in ("inv_area", "invert_area"):
-            if abs(o["area"] + o[nm] - FOUR_PI * rr * rr) > tol(rr):
+            if abs(o["area"] + o[nm] - FOUR_PI * rr * rr) > case_tol(case, rr):
                 fails.append(("C17.area.inverse." + cls, "area %.15g + area of %s %.15g != 4 pi r^2 = %.15g (%s)"
                               % (o["area"], "inverse()" if nm == "inv_area" else "invert()", o[nm], FOUR_PI * rr * rr, case["v"])))
-    if "invert2_area" in base and (abs(base["invert2_area"] - a1) > tol(1.0) or base.get("invert2_v") != [list(map(float, x)) for x in case["v"]]):
+    if "invert2_area" in base and (abs(base["invert2_area"] - a1) > case_tol(case, 1.0) or base.get("invert2_v") != [list(map(float, x)) for x in case["v"]]):
         fails.append(("C17.area.invert_twice", "invert(); invert() on one object gives area %.15g / vertices %s, originally %.15g (%s)"
                       % (base["invert2_area"], base.get("invert2_v"), a1, case["v"])))
     return fails
@@ -164,7 +185,7 @@ def history_laws(case, ops, o):
         return [("C17.history.crash", "history %s on %s: %s" % ([OPNAME[x] for x in ops], case["v"], o["error"]))]
     fails = []
     fresh = o["fresh"]
-    t = tol(case["r"])
+    t = case_tol(case, case["r"])
     k = 0                                   # parity of invert() calls: the model's state
     done = []
     for op, st in zip(ops, o["steps"]):
@@ -253,6 +274,8 @@ def pair_class(p):
         return "close_nodes"
     if p["cross_angle"] < PAR_ANGLE:
         return "near_parallel_crossing"
+    if p.get("max_edge", 0.0) > math.pi / 2:
+        return "large_edges." + p["relation"]
     return p["relation"]
 
 
@@ -284,6 +307,10 @@ def make_pair_cases(ctx):
     # edges crossing at less than 4.6e-4 rad, all nodes well separated (long edges)
     add(lambda: G.gen_pair_near_parallel(rng, rng.randint(3, 4), rng.choice(placements), MARGIN, long_edges=True), ctx.n(30, 300), True,
         lambda p: p["node_sep"] >= 7e-5 and p["relation"] == "overlap")
+    # convex polygons with edges longer than 90 degrees (large triangles / quadrilaterals inside one hemisphere), crossed anywhere
+    # along those edges: both antipodal meeting points of two great circles matter
+    add(lambda: G.gen_pair_large(rng, rng.choice(placements), 1e-3), ctx.n(24, 300), True,
+        lambda p: p["node_sep"] >= 1e-3 and p["cross_angle"] >= 1e-2 and p["max_edge"] > math.pi / 2)
     # two distinct nodes within the tolerance of SCoordinate.__eq__ (vertex next to a crossing, slivers)
     add(lambda: G.gen_pair_near_vertex(rng, rng.randint(3, 6), rng.choice(placements), MARGIN), ctx.n(12, 150), False,
         lambda p: p["node_sep"] < SEP_CLOSE)
@@ -433,9 +460,11 @@ def run(ctx):
                 "across the antimeridian / next to a pole / on the equator-meridian cross; per polygon: enclosed area by an independent "
                 "triangle fan, interior angles from tangent vectors, 2 cyclic relabellings, 2 random rotations, one interior diagonal, "
                 "a radius, inverse()/invert(); two random call histories (2..9 calls of area()/inverse()/invert() on ONE object, the object, "
-                "the returned polygons and the caller's array compared with fresh objects after every call). pairs: two strictly convex polygons in one chart (overlapping / disjoint / nested), "
+                "the returned polygons and the caller's array compared with fresh objects after every call); the same for tiny polygons "
+                "(1e-5..1e-3 rad across, at the antimeridian / around and next to both poles / mid latitudes), checked to the rounding "
+                "bound of the angle sum, 16 n eps / d_min, instead of 1e-9 * 4 pi. pairs: two strictly convex polygons in one chart (overlapping / disjoint / nested), "
                 "general position >= 1.5e-6 rad, streams: well separated, down to the bound, crossings next to vertices, edges "
-                "crossing at < 4.6e-4 rad, distinct nodes closer than 6e-5 rad; oracle = the laws + the common region by planar "
+                "crossing at < 4.6e-4 rad, large triangles / quadrilaterals with edges of 90..170 degrees, distinct nodes closer than 6e-5 rad; oracle = the laws + the common region by planar "
                 "clipping; operands re-examined after the operations. non-trivial = every generated polygon / pair (all are inside the "
                 "property's input class), histories with at least one inverse()/invert(); distinct = "
                 "distinct inputs. Tolerance 1e-9 * 4 pi r^2 on every area law.")
@@ -447,6 +476,12 @@ def run(ctx):
         n = 3 + (t % 10) if t < 40 else rng.randint(3, 12)
         placement = G.PLACEMENTS[t % len(G.PLACEMENTS)]
         area_cases.append(make_area_case(rng, kinds[t % 3], n, placement, RADII[t % len(RADII)] if t % 2 else 1.0))
+    # tiny polygons (1e-5 .. 1e-3 rad across), checked against the rounding bound of the angle sum instead of 1e-9 * 4 pi
+    tiny_places = ("antimeridian", "north_pole_inside", "south_pole_inside", "next_to_pole", "mid_latitude", "equator_meridian",
+                   "pole_vertex", "generic")
+    for t in range(ctx.n(32, 400)):
+        area_cases.append(make_area_case(rng, kinds[t % 3], rng.randint(3, 8), tiny_places[t % len(tiny_places)],
+                                         RADII[t % len(RADII)] if t % 2 else 1.0, 10 ** rng.uniform(-5, -3) / 2))
     req_polys, spans = [], []
     for c in area_cases:
         ent = area_entries(c)
@@ -466,8 +501,8 @@ def run(ctx):
     # ---- property oracle: area laws
     for c, (s, k) in zip(area_cases, spans):
         outs = obs["polys"][s:s + k]
-        ctx.count("area_%s_%s" % (c["kind"], c["placement"]))
-        skey = "area_" + c["kind"]
+        ctx.count("area_%s%s_%s" % ("tiny_" if c.get("tiny") else "", c["kind"], c["placement"]))
+        skey = "area_" + ("tiny_" if c.get("tiny") else "") + c["kind"]
         ctx.case(("area", repr(c["v"]), c["r"]), nontrivial=True,
                  sample=None if skey in sampled else {skey: c["v"], "placement": c["placement"], "radius": c["r"],
                                                       "impl_area_r1": outs[0].get("area"), "impl_inverse_area_r1": outs[0].get("inv_area"),
